@@ -602,7 +602,7 @@ class BaseBackend(CodeGen):
         # use a safer way to generate time points (endpoint=False ensures times match Euler step indices)
         step = dts if dts else dt
         n_time_points = round(T/step)
-        times = np.linspace(0.0, T, num=n_time_points, endpoint=False)
+        times = step * np.arange(n_time_points)
 
         # perform simulation
         results = self._solve(solver=solver, func=func, args=func_args[2:], T=T, dt=dt, dts=dts, y0=y0, t0=t0,
